@@ -61,9 +61,7 @@ type Parser interface {
 
 // Loop is the repl-loop.
 func Loop(r lineReader, p Parser, vm *vm.Type, doOut bool) {
-	blocksOpen := 0
-	quotesOpen := 0
-	bracketsOpen := 0
+	var open openCounts
 	input := ""
 	sep := ""
 
@@ -73,16 +71,51 @@ func Loop(r lineReader, p Parser, vm *vm.Type, doOut bool) {
 			break
 		}
 
-		blocksOpen += strings.Count(line, "{") - strings.Count(line, "}")
-		quotesOpen += strings.Count(line, "\"") - strings.Count(line, "\\\"")
-		bracketsOpen += strings.Count(line, "[") - strings.Count(line, "]")
+		open.scan(line)
 		input += sep + line
 		sep = "\n"
 
-		if blocksOpen == 0 && quotesOpen%2 == 0 && bracketsOpen == 0 {
+		if open.blocks == 0 && !open.inString && open.brackets == 0 {
 			processInput(input, p, vm, doOut)
 			sep = ""
 			input = ""
+		}
+	}
+}
+
+// openCounts tracks what a statement still has open after the lines read so far.
+type openCounts struct {
+	blocks   int  // { without }
+	brackets int  // [ without ]
+	inString bool // inside a string literal that continues on the next line
+}
+
+// scan updates the counts with line. Braces, brackets and quotes inside string
+// literals and comments are not syntax, and a backslash escapes the character
+// following it in a string, like in the lexer.
+func (o *openCounts) scan(line string) {
+	for i := 0; i < len(line); i++ {
+		c := line[i]
+		switch {
+		case o.inString:
+			switch c {
+			case '\\':
+				i++
+			case '"':
+				o.inString = false
+			}
+		case c == '"':
+			o.inString = true
+		case c == ';': // comment until the end of the line
+			return
+		case c == '{':
+			o.blocks++
+		case c == '}':
+			o.blocks--
+		case c == '[':
+			o.brackets++
+		case c == ']':
+			o.brackets--
 		}
 	}
 }
